@@ -15,7 +15,7 @@ SPEC = dict(
     component="deadline",
     props_module="Refinery.Props.C03",
     gen_module="Refinery.Gen.Deadline",
-    quick=dict(cases=1200, len=60, shards=4),
+    quick=dict(cases=600, len=60, shards=4),
     thorough=dict(cases=48000, len=90, shards=16),
     nontrivial=nontrivial,
     rule="cases = random schedules of span arrivals (root/child, several traces), fake-clock advances, send ticks, "
